@@ -226,6 +226,25 @@ def cases(tier, rng):
                         yield {"op": "entries", "fmt": fmt, "header": header, "ents": ents, "gz": gz, "nl": nl, "crlf": crlf,
                                "lazy": lazy, "k": k, "longest": longest, "keep": (k + len(ents)) % 2 == 0}
 
+    # --- two readers alive in one process: a second file is read in lockstep with, or previewed and abandoned before, the file under
+    #     test (reader state must be per reader; a gzip reader keeps a left-over tail between reads)
+    for fmt in fmts:
+        for n in ((2, 3, 4) if big else (3,)):
+            ents, header = make_entries(fmt, n, [2, 5], rng)
+            L = len("".join(ents))
+            fmt2 = rng.choice(["fasta", "bed", "fastq", fmt])
+            ents2, header2 = make_entries(fmt2, 3, [5, 1], rng)
+            L2 = len("".join(ents2))
+            bounds = list(itertools.accumulate(len(e) for e in ents))
+            cand = sorted({max(1, b - 1) for b in bounds} | {b + 1 for b in bounds} | {L // 2 + 1, L + 1} | set(range(len(ents[0]) + 2, len(ents[0]) + 6)))
+            for k in (cand if big else rng.sample(cand, min(len(cand), 4))):
+                for gz, gz2 in ((True, True), (True, False), (False, True)):
+                    for mode in ("zip", "preview"):
+                        yield {"op": "entries", "fmt": fmt, "header": header, "ents": ents, "gz": gz, "nl": rng.random() < 0.7, "crlf": False,
+                               "lazy": rng.random() < 0.5, "k": k, "longest": max(len(e) for e in ents) + 2,
+                               "other": {"fmt": fmt2, "header": header2, "ents": ents2, "gz": gz2, "mode": mode,
+                                         "k": rng.choice([max(len(e) for e in ents2) + 3, L2 // 2 + 2])}}
+
 
 def nontrivial(c):
     if c["op"] == "whole":
@@ -331,6 +350,28 @@ def impl(c):
                 whole = table_rows(f.read())
         except Exception as e:
             return {"whole_err": _errname(e)}
+        other = c.get("other")
+        if other:
+            bt2, suffix2 = _buffer_type(other["fmt"])
+            path2 = os.path.join(_tmpdir(), f"g{os.getpid()}{suffix2}" + (".gz" if other["gz"] else ""))
+            with (gzip.open if other["gz"] else open)(path2, "wb") as fh:
+                fh.write((other["header"] + "".join(other["ents"]))[:-1].encode())
+            try:
+                rows = []
+                f2 = bnp.open(path2, buffer_type=bt2)
+                with bnp.open(path, buffer_type=bt, lazy=c["lazy"]) as f:
+                    if other["mode"] == "preview":
+                        f2.read_chunk(min_chunk_size=other["k"])       # look at the start of the other file, then leave it
+                        for chunk in f.read_chunks(min_chunk_size=c["k"]):
+                            rows += table_rows(chunk)
+                    else:
+                        for chunk, _ in itertools.zip_longest(f.read_chunks(min_chunk_size=c["k"]), f2.read_chunks(min_chunk_size=other["k"])):
+                            if chunk is not None:
+                                rows += table_rows(chunk)
+                f2.close()
+                return {"whole": whole, "chunked": rows}
+            except Exception as e:
+                return {"whole": whole, "err": _errname(e)}
         try:
             rows = []
             with bnp.open(path, buffer_type=bt, lazy=c["lazy"]) as f:
